@@ -6,8 +6,9 @@ PROPS = {
     "C10": {
         "props": ["OsmVerif.Props.C10", "OsmVerif.Props.C10Text"],
         "gens": ["Ids"],
-        "required_theorems": ["pack_injective", "pack_lt_iff", "int_sorted_is_type_id_version_sorted",
-                              "element_ref", "object_type", "layout_version",
+        "required_theorems": ["pack_injective", "pack_lt_iff", "int_sorted_is_type_id_version_sorted", "sort_less_functions",
+                              "element_ref", "object_type", "layout_version", "type_objectID", "type_featureID", "element_type", "feature_type",
+                              "object_ref", "feature_ref", "element_to_feature", "feature_to_element",
                               "parse_show_object", "parse_show_element", "parse_show_feature",
                               "parseObject_shape", "parseElement_shape", "parseFeature_shape"],
         "trusted_base": [GO_LIBS + "strings.Split, strconv.ParseInt, fmt %s/%d, sort.Sort (validated differentially by the model stream)",
@@ -55,7 +56,7 @@ PROPS["C15"] = {
                           "apply_compose", "reverse_flips", "lineStringAtWith_continue_eq_apply", "lineStringAt_eq_apply_partial",
                           "lineStringAt_eq_apply", "lineStringAt_break_counterexample"],
     "technique": "Lean 4 theorems (fold/per-index characterisation, sorted-list split lemma) about a hand-written executable model of ApplyUpdatesUpTo/LineString/LineStringAt with the late-update branch regenerated from way.go; tied by a differential line protocol",
-    "level_text": "Machine-checked proof for all child lists, all update lists (any stored order) and all times that the model of ApplyUpdatesUpTo applies exactly the updates stamped <= t in list order (per-child view, untouched children, identities and length preserved, orientation flip for reversed relation members only), keeps the later ones pending in original order, reports the first out-of-range index without writing outside the list, composes (t1 <= t2, per-child time-ordered lists), and that the geometry-at-time query equals the geometry of an updated copy for fully annotated ways. The late-update branch of Way.LineStringAt (break vs continue) is extracted from way.go each run; the rest of the model is hand-written and tied by running it and the real code on the same ~20k generated cases.",
+    "level_text": "Machine-checked proof for all child lists, all update lists (any stored order) and all times that the model of ApplyUpdatesUpTo applies exactly the updates stamped <= t in list order (per-child view, untouched children, identities and length preserved, orientation flip for reversed relation members only), keeps the later ones pending in original order, reports the first out-of-range index without writing outside the list, composes (t1 <= t2, per-child time-ordered lists, no applicable update out of range - on the error path the real code leaves the update list untouched, so composition is claimed for error-free runs), and that the geometry-at-time query equals the geometry of an updated copy for fully annotated ways whose applicable updates are in range and carry a version (an unannotated update would make LineString drop the node while LineStringAt keeps it). The late-update branch of Way.LineStringAt (break vs continue) is extracted from way.go each run; the rest of the model is hand-written and tied by running it and the real code on the same ~20k generated cases.",
     "level_note": "Trusted: Lean kernel; correspondence harness; float64 coordinates are only copied and compared with zero (modelled as opaque integers, generator uses exactly representable values); time.Time.After modelled as > on unix seconds; negative update indices are outside the model (the code panics on them; not generated).",
     "design_ref": "DESIGN.md §5 C15",
     "trusted_base": ["model Model/Updates.lean is hand-written; tie = differential stream (./check C15) + extracted late-update branch"],
@@ -112,7 +113,7 @@ PROPS["C12"] = {
                           "collect_success_perm", "compute_order_independent", "updates_sorted_index_time_version", "updates_tie_counterexample",
                           "keys_injective", "updates_order_independent"],
     "technique": "Lean 4 theorems (uniqueness of the key-sorted permutation; order independence of the per-child fold) about a hand-written executable model of core.Compute with the sort keys regenerated from update.go; tied by a differential line protocol and by repeating the real computation on deep copies",
-    "level_text": "Machine-checked proof, for every set of parents, histories and options and every pair of iteration orders of the child map, that the model of core.Compute either fails under both orders or succeeds under both, and then yields identical update lists (given that no two distinct updates of a parent share index, time and version - which keys_injective derives, for every input, from version numbers being distinct within each child history: an index is a position, a position holds one child, and a child version's update at a position is a function of the version; so updates_order_independent needs only that data condition) and identical child slots; that the sort keys extracted from update.go are index, timestamp, version, that updates incomparable under them agree on all three, that the sorted permutation is therefore unique, and that every update list is ordered by index, then time, then version. The model is hand-written, the keys are regenerated; every run executes model and real annotate.Ways/Relations on the same generated timelines and repeats the real computation 20 (100) times on fresh copies.",
+    "level_text": "Machine-checked proof, for every set of parents, histories and options and every pair of iteration orders of the child map, that the model of core.Compute either fails under both orders or succeeds under both, and then yields identical update lists (given that no two distinct updates of a parent share index, time and version - which keys_injective derives, for every input, from version numbers being distinct within each child history: an index is a position, a position holds one child, and a child version's update at a position is a function of the version; so updates_order_independent needs only that data condition) and identical child slots (for parents whose slot assignments address each position once - a position is assigned by the one child it refers to); that the sort keys extracted from update.go are index, timestamp, version, that updates incomparable under them agree on all three, that the sorted permutation is therefore unique, and that every update list is ordered by index, then time, then version. The model is hand-written, the keys are regenerated; every run executes model and real annotate.Ways/Relations on the same generated timelines and repeats the real computation 20 (100) times on fresh copies.",
     "level_note": "Trusted: Lean kernel; correspondence harness; Go's sort.Sort modelled as 'some permutation sorted w.r.t. Less' (the unique one once ties are impossible); Go map iteration modelled as an arbitrary permutation of the key set. KeysInjective (no two distinct updates with equal index, time, version) is a hypothesis of the order-independence theorem, validated per case by the harness.",
     "design_ref": "DESIGN.md §5 C11/C12",
     "trusted_base": ["model Model/Annotate.lean is hand-written; tie = differential stream through annotate.Ways / annotate.Relations", "Go's sort.Sort returns some permutation sorted w.r.t. Less"],
@@ -135,9 +136,9 @@ PROPS["C16"] = {
     "props": ["OsmVerif.Props.C16", "OsmVerif.Props.C16b"],
     "gens": [],
     "required_theorems": ["join_partitions_input", "join_preserves_edges", "grow_complete", "hole_assigned", "hole_without_outer",
-                          "coords_source_independent", "ring_orientation", "orientation_annotation", "join_groups_closed", "join_groups_are_components", "cut_rings_condition", "cut_rings_deg"],
+                          "coords_source_independent", "ring_orientation", "orientation_annotation", "join_groups_closed", "join_groups_are_components", "cut_rings_condition", "cut_rings_deg", "cut_rings_join_closed", "cut_rings_join_components"],
     "technique": "Lean 4 theorems about a hand-written executable model of mputil.Join/Ring and osmgeojson.buildPolygon over lattice points (ghost field for the untrimmed oriented line); tied by a differential line protocol through osmgeojson.Convert and by a ground-truth ring oracle",
-    "level_text": "Machine-checked proof, for every list of member lines (any number, size, order, direction), that the model of mputil.Join uses every input segment in exactly one output group (possibly reversed, the reversed flag recording it), glues pieces only at shared end points so that the edges of each output line string are exactly the edges of its members' full lines (nothing lost, duplicated or invented), and never stops growing a group for lack of fuel (termination); that a closed group with non-zero area is returned with the requested winding (outers CCW, inners CW) when members carry no annotation; that each hole is attached to the first containing outer and dropped otherwise; that way-node coordinates and node-object coordinates give the same line; and that annotation writes to each member the direction in which it runs around the joined ring. and that for pieces cut from rings - every end point shared by exactly two piece ends, which holds whenever each cut point is where exactly one piece ends and one begins and survives reversing and reordering pieces - EVERY group Join builds is closed (no ring is left open, for any number of rings and pieces). and no piece outside a group shares an end point with a piece inside it, so the groups are exactly the closed chains of pieces that hang together through shared end points - for pieces cut from vertex-disjoint simple rings, the rings themselves, with every edge of every ring exactly once (join_preserves_edges). The hypothesis is discharged for cut rings themselves (cut_rings_deg): any number of rings with pairwise distinct vertices, each cut at one or more of its vertices into pieces running from one cut to the next (the last wrapping around), any pieces reversed, listed in any order. What stays outside Lean is that a piece list handed to Join by buildPolygon really is such a cutting (that is a fact about the input data), and the float predicates of hole assignment; both are checked against ground truth for all cut/reverse choices of a rectangle with a hole and ~3000 random multi-ring instances per run, both coordinate sources, with and without annotations.",
+    "level_text": "Machine-checked proof, for every list of member lines (any number, size, order, direction), that the model of mputil.Join uses every input segment in exactly one output group (possibly reversed, the reversed flag recording it), glues pieces only at shared end points so that the edges of each output line string are exactly the edges of its members' full lines (nothing lost, duplicated or invented), and never stops growing a group for lack of fuel (termination); that a closed group with non-zero area is returned with the requested winding (outers CCW, inners CW) when members carry no annotation; that each hole is attached to the first containing outer and dropped otherwise; that way-node coordinates and node-object coordinates give the same line; and that annotation writes to each member the direction in which it runs around the joined ring. and that for pieces cut from rings - every end point shared by exactly two piece ends, which holds whenever each cut point is where exactly one piece ends and one begins and survives reversing and reordering pieces - EVERY group Join builds is closed (no ring is left open, for any number of rings and pieces). and no piece outside a group shares an end point with a piece inside it, so the groups are exactly the closed chains of pieces that hang together through shared end points - for pieces cut from vertex-disjoint simple rings, the rings themselves, with every edge of every ring exactly once (join_preserves_edges). The hypothesis is discharged for cut rings themselves, end to end (cut_rings_join_closed, cut_rings_join_components): for any number of rings with pairwise distinct vertices, each cut at one or more of its vertices into pieces running from one cut to the next (the last wrapping around), any pieces reversed, listed in any order, with the member segments as buildPolygon makes them (line = full; pieces have at least two points, so none is dropped), EVERY group Join returns is closed and no piece outside a group touches it. That one group is exactly one of the original rings (rather than some closed chain through shared points - which for vertex-disjoint rings is the only possibility) is argued from these two facts and join_preserves_edges, not stated as one theorem. Members with fewer than two points are dropped before joining (as in Go), so 'every input segment' means every member line with at least two points. What stays outside Lean is that a piece list handed to Join by buildPolygon really is such a cutting (that is a fact about the input data), and the float predicates of hole assignment; both are checked against ground truth for all cut/reverse choices of a rectangle with a hole and ~3000 random multi-ring instances per run, both coordinate sources, with and without annotations.",
     "level_note": "Trusted: Lean kernel; correspondence harness (model vs osmgeojson.Convert and annotate.Relations, plus a ground-truth ring oracle); float arithmetic (shoelace area, ray casting in polygonContains) is exact on the integer lattice used and modelled with exact integer arithmetic; orb.Ring.Orientation/Reverse/Closed modelled by hand.",
     "design_ref": "DESIGN.md §5 C16/C17",
     "trusted_base": ["models Model/Geo.lean, Model/Convert.lean are hand-written; tie = differential stream through osmgeojson.Convert"],
@@ -146,11 +147,11 @@ PROPS["C16"] = {
 PROPS["C17"] = {
     "props": ["OsmVerif.Props.C17", "OsmVerif.Props.C17b"],
     "gens": [],
-    "required_theorems": ["one_feature_per_element", "node_feature_iff", "node_feature_content", "way_feature_geometry", "toRing_closed",
+    "required_theorems": ["one_feature_per_element", "one_feature_per_element_counterexample", "node_feature_iff", "node_feature_content", "way_feature_geometry", "toRing_closed",
                           "reorientOuter_ccw", "route_preserves_segments", "node_options_only_subtract", "way_options_only_subtract", "convert_noid_nometa", "convert_norelmembership",
                           "buildPolygon_skip", "buildPolygon_keeps", "buildPolygon_single_indep", "convert_includeInvalid"],
     "technique": "Lean 4 theorems about a hand-written executable model of osmgeojson.Convert (relation, way and node passes, options); tied by a differential line protocol and an independent element-to-feature oracle",
-    "level_text": "Machine-checked proof about the model of osmgeojson.Convert: at most one feature per input element (relations, ways, nodes); a node becomes a point feature exactly when it is located and is not a way vertex, or has an interesting tag, or is a relation member, carrying its id, location and tags; a way becomes a line over its resolvable node coordinates in order, or for area ways a closed counter-clockwise polygon; a route's joined geometry uses every member line once and preserves every edge; NoID/NoMeta/NoRelationMembership change nothing on node and way features but the id string, the meta object and the relations list. On the WHOLE output, relation features included: Convert with NoID/NoMeta equals Convert without them with only the id string and the meta object removed from every feature, and Convert with NoRelationMembership equals Convert without it with only the relations list removed - same features, same order, same geometry and tags (so which elements get a feature does not depend on these options). IncludeInvalidPolygons only adds, and only to multipolygon/boundary relations (convert_includeInvalid): with it the skippable way set, every way feature, every node feature and every route feature are identical; a multipolygon with a single outer member does not consult it; and every feature of the output without it is still in the output with it, in the same order, with the same element, id, tags, tainted flag, relation membership and meta - only geometry may gain rings. Input immutability is covered by the differential stream (model vs real Convert under all 16 option sets, inputs compared before/after) and the element->feature oracle, not by a theorem; equal input gives equal output because the model is a function (the real code's determinism is checked by repeating conversions).",
+    "level_text": "Machine-checked proof about the model of osmgeojson.Convert: the output never has more features than the input has elements, and every relation, way-pass and node-pass step yields at most one feature (one_feature_per_element). PARTIAL / known finding: 'at most one feature per input ELEMENT' is false of model and code alike when two old-style multipolygon relations (single outer way, untagged relation) share their outer way - each becomes a feature with that way's identity (one_feature_per_element_counterexample; KNOWN-FINDING duplicate-way-feature); the direct oracle checks uniqueness of (type, id) on every generated conversion and reports any other duplicate; a node becomes a point feature exactly when it is located and is not a way vertex, or has an interesting tag, or is a relation member, carrying its id, location and tags; a way becomes a line over its resolvable node coordinates in order, or for area ways a closed counter-clockwise polygon; a route's joined geometry uses every member line once and preserves every edge; NoID/NoMeta/NoRelationMembership change nothing on node and way features but the id string, the meta object and the relations list. On the WHOLE output, relation features included: Convert with NoID/NoMeta equals Convert without them with only the id string and the meta object removed from every feature, and Convert with NoRelationMembership equals Convert without it with only the relations list removed - same features, same order, same geometry and tags (so which elements get a feature does not depend on these options). IncludeInvalidPolygons never removes a feature and touches only multipolygon/boundary relations (convert_includeInvalid): with it the skippable way set, every way feature and every node feature are identical (route relations: buildRoute_withInvalid); a multipolygon with a single outer member does not consult it; and every feature of the output without it is still in the output with it, in the same order, with the same element, id, tags, tainted flag, relation membership and meta. What the option does to the GEOMETRY of a multipolygon with several outer rings is not characterised by a theorem (invalid outer rings are kept as additional polygons and holes are assigned among all of them, so a hole can move); that part is tied by the differential stream and the ring oracle only. Input immutability is covered by the differential stream (model vs real Convert under all 16 option sets, inputs compared before/after) and the element->feature oracle, not by a theorem; equal input gives equal output because the model is a function (the real code's determinism is checked by repeating conversions).",
     "level_note": "Trusted: Lean kernel; correspondence harness; Way.Polygon is the C18 model; geojson property maps observed through type assertions/JSON; float coordinates exact on the lattice.",
     "design_ref": "DESIGN.md §5 C16/C17",
     "trusted_base": ["models Model/Geo.lean, Model/Convert.lean are hand-written; tie = differential stream through osmgeojson.Convert"],
@@ -160,7 +161,7 @@ PROPS["C17"] = {
 PROPS["C04"] = {
     "props": ["OsmVerif.Props.C04"],
     "gens": ["Schema"],
-    "required_theorems": ["names_eq_osm_xml", "marshal_names_decodable", "marshal_covers_all_collections", "block_names_decodable", "marshal_guards",
+    "required_theorems": ["container_call_structure", "custom_xml_methods_pinned", "names_eq_osm_xml", "marshal_names_decodable", "marshal_covers_all_collections", "block_names_decodable", "marshal_guards",
                           "attrs_roundtrip", "codec_attr_names_distinct"],
     "technique": "Lean 4 theorems over the struct-tag schema and custom-marshaler call lists regenerated from the source, interpreted with encoding/xml's naming rules (schema = pinned OSM XML vocabulary; every emitted element name is one the decoders accept); container shapes and attribute lists of the model compared with real xml.Marshal output; direct Marshal->Unmarshal and Marshal->Scanner round trips on generated values",
     "level_text": "Machine-checked proof over the schema regenerated from the source: every codec struct carries exactly the pinned OSM XML names (attributes, elements, omitempty, paths); every element name written by the custom container marshalers (OSM, osmChange blocks, diff actions, changeset discussion) - computed from the extracted Encode calls with encoding/xml's own-name rule (XMLName tag, else Go type name) - is one the OSM struct decodes and the streaming scanner dispatches on, and every collection is written; the attribute part of every record round-trips for all values (generic theorem over field tables with distinct attribute names, instantiated for all 27 codec structs). The reflection codec itself is not modelled: full-value round trips (Marshal->Unmarshal equality and Marshal->Scanner equality for Node, Way, Relation, Changeset, Note, User, Bounds, OSM, Change, Diff with every optional part toggled) are direct checks on the real code, and the model's container shapes and attribute lists are compared with real xml.Marshal output.",
@@ -188,7 +189,7 @@ PROPS["C05"] = {
     "props": ["OsmVerif.Props.C05"],
     "gens": ["Schema"],
     "required_theorems": ["mplan_eq", "uplan_eq", "elements_typed", "all_collections_written", "osm_json_roundtrip", "version_decoding",
-                          "absent_fields_stay_empty", "names_eq_osmjson", "small_marshalers_pinned", "codec_routing", "tags_roundtrip",
+                          "absent_fields_stay_empty", "names_eq_osmjson", "small_marshalers_pinned", "codec_routing", "tags_roundtrip", "tags_decode_roundtrip",
                           "waynodes_roundtrip", "json_fields_roundtrip", "codec_json_keys_distinct", "json_decode_perm",
                           "json_decode_ignores_unknown"],
     "technique": "Lean 4 theorems over the JSON container plans computed from facts regenerated from the source (top-level structs of OSM.MarshalJSON/UnmarshalJSON, elements expression, guarded assignments, dispatch targets, type shims, struct json tags): every element typed and filed back, container round trip for all contents, absent version stays empty, osmjson key names pinned, codec-routing helpers; executable plans and the real code compared on the same inputs; generated round trips and independently written osmjson documents under four codec configurations",
@@ -219,7 +220,7 @@ PROPS["C08"] = {
     "props": ["OsmVerif.Props.C08"],
     "gens": ["Pbf"],
     "model_is_spec": ["filt "],
-    "required_theorems": ["reuses_eq", "skip_guards", "reuse_is_fresh", "mergeWay_fresh", "mergeRel_fresh", "mergeNode_fresh",
+    "required_theorems": ["initial_accumulators_fresh", "reuses_eq", "skip_guards", "reuse_is_fresh", "mergeWay_fresh", "mergeRel_fresh", "mergeNode_fresh",
                           "scanGroup_eq_filter", "scanBlock_eq_filter", "scanBlock_sublist", "scanFile_eq_filter"],
     "technique": "Lean 4 model of scanPrimitiveGroup / extractDenseNodes with one accumulator per element kind, the accept/reject statements read from the source and interpreted; theorems: a reused accumulator is indistinguishable from a new one, a message on a fresh accumulator is the decoded element, hence for every selection (skip flags x arbitrary predicates) and every valid block the scan is the filter of the unfiltered decode (a subsequence of unmodified elements); the executable model, the real scanner and the filter of the real unfiltered scan compared on generated files; snapshots of returned objects compared at the end of the scan",
     "level_text": "Machine-checked proof: for all predicates and all 8 skip-flag combinations, every valid block, scanBlock (the model of the decoder loop with accumulator reuse, driven by the replacement and overwrite literals regenerated from the source) equals the filter of decodeBlock - in particular a sublist of it with unchanged elements. Correspondence: generated files scanned by the real scanner under skip flags and deterministic predicates with 1..8 decoders, compared with the model and with the filter of the scanner's own unfiltered result. Aliasing (memory of rejected elements reused while returned objects are retained) is outside a value-level model: every returned object is snapshotted when Scan returns it and compared again after the scan ended.",
@@ -233,7 +234,7 @@ PROPS["C09"] = {
     "props": ["OsmVerif.Props.C09"],
     "gens": ["Pbf"],
     "model_is_spec": ["offs "],
-    "required_theorems": ["rules_eq", "accounted_eq_size", "feed_eq", "scanTrace_eq", "scan_objects", "reported_offset_is_block_start",
+    "required_theorems": ["accessors_pinned", "rules_eq", "accounted_eq_size", "feed_eq", "scanTrace_eq", "scan_objects", "reported_offset_is_block_start",
                           "resume_complete"],
     "technique": "Lean 4 model of the offset bookkeeping (bytesRead accounting, offset captured before each read and carried with the block, Next shifting previous/current) with the statements regenerated from decoder.Start / readFileBlock / Next and interpreted; theorems for every stream: reported offsets = byte offset of the object's block and the offset current before it, a scan from any block on yields exactly the remaining objects; executable model vs the real scanner on generated files, plus a second real scanner started at every reported offset",
     "level_text": "Machine-checked proof, for every stream (header or none, any number of blocks of any sizes, any of them yielding no object): every block is accounted with its full 4+header+blob length; the consumer receives each block with the byte offset at which it begins; after each returned object FullyScannedBytes is that offset and PreviousFullyScannedBytes the offset current before the block was taken (empty blocks shift like any other); a scan started on the stream from block i on (a data block first, no header) yields exactly the objects of blocks i.. - so stop-and-resume never skips an element. Correspondence: generated files with empty (fully skipped) blocks in every position, 8 skip combinations, 1..8 decoders; reported offsets after every Scan compared with the model, and a second real scanner started at every reported offset must yield the rest from the first object of that block.",
@@ -247,7 +248,7 @@ PROPS["C06"] = {
     "props": ["OsmVerif.Props.C06"],
     "gens": ["Pbf"],
     "model_is_spec": ["cut ", "dmg "],
-    "required_theorems": ["conv_eq", "readFrame_spec", "scanCut_spec", "cut_stream", "damage_checks_present", "dense_column_mismatch",
+    "required_theorems": ["limits_pinned", "conv_eq", "readFrame_spec", "scanCut_spec", "cut_stream", "damage_checks_present", "dense_column_mismatch",
                           "dense_short_version_column", "way_user_out_of_range", "tags_key_out_of_range", "rel_column_mismatch", "block_with_bad_group"],
     "technique": "Lean 4 model of the framing reader on a stream that ends early (io.ReadFull contract assumed, EOF handling of the three readers regenerated from the source): theorem for every stream of frames and every cut offset - objects of the complete blocks, success only on a block boundary; the rejecting checks of every damage class pinned in the regenerated function bodies; the real scanner run on every byte offset of generated files and on every damage class at every block position, each damaged scan in an isolated child process with a watchdog",
     "level_text": "Machine-checked proof over all streams and all cut offsets: with the EOF handling read from readBlobHeaderSize / readBlobHeader / readBlob, a stream of frames cut to k bytes yields exactly the objects of the frames present in full and ends in success iff k is a frame boundary (in particular not right after a length prefix or a blob header). Pinned in the regenerated bodies: the oversized/negative size checks, the raw-size and encoding checks of getData, the block type checks for the first and for later blocks, the required-feature gate, the plain-node rejection, the recover in Decode, the three mandatory dense columns. Correspondence: every byte offset 0..len of generated files, and 20 damage classes at every block position with 1..4 decoders; a child process per damaged scan makes a crash the observed result of that case, a watchdog reports hangs; the prefix of objects before the damage is compared with the model.",
